@@ -1,5 +1,7 @@
 mod util;
 mod bddprops;
+mod formula;
+mod watchdog;
 
 use std::io::Write;
 use util::{Rng, Stats};
@@ -19,11 +21,15 @@ fn main() {
     let mut out = std::io::BufWriter::with_capacity(1 << 20, stdout.lock());
     // panics are data for several properties; keep the default hook quiet
     std::panic::set_hook(Box::new(|_| {}));
+    watchdog::start(60);
     match prop {
+        "C01" => formula::c01(&mut out, tier, &mut rng, &mut st),
+        "C06" => formula::c06(&mut out, tier, &mut rng, &mut st),
+        "C09" => formula::c09(&mut out, tier, &mut rng, &mut st),
         "C02" => bddprops::c02(&mut out, tier, &mut rng, &mut st),
         "C03" => bddprops::c03(&mut out, tier, &mut rng, &mut st),
         "C04" => bddprops::c04(&mut out, tier, &mut rng, &mut st),
-        "C05" => bddprops::c05(&mut out, tier, &mut rng, &mut st),
+        "C05" => { bddprops::c05(&mut out, tier, &mut rng, &mut st); formula::c05_lang(&mut out, tier, &mut rng, &mut st) }
         "C07" => bddprops::c07(&mut out, tier, &mut rng, &mut st),
         "C20" => bddprops::c20(&mut out, tier, &mut rng, &mut st),
         _ => { eprintln!("unknown property {}", prop); std::process::exit(2); }
